@@ -160,6 +160,9 @@ func (c10) Gen(rs uint64, tier string, race bool) interface{} {
 	}
 	if cli {
 		c.Kind = "cli"
+		if r.Chance(0.15) {
+			c.Seed = -c.Seed - 2 // all seeds: only -1 means "no seed" to the command line
+		}
 	}
 	return c
 }
